@@ -84,13 +84,13 @@ template <int S> static void part_a(Ctx &c, long &id) {  // all permutations of 
 #if VMODE == 0
 struct E3Acc { long execs = 0, maxpoints = 0; std::set<uint64_t> traces; };
 template <class Bodies, class Reset, class Check>
-static void run_e3(Ctx &c, const std::string &unit, const std::string &what, const std::string &key, int bound, Bodies &bodies, Reset reset, Check check, E3Acc &acc) {
+static void run_e3(Ctx &c, const std::string &unit, const std::string &what, const std::string &key, int bound, Bodies &bodies, Reset reset, Check check, E3Acc &acc, int part = 0, int nparts = 1) {
   if (c.args.has_only) {  // replay "<unit>|<schedule>"
     return;
   }
   for (int b = 0; b <= bound; ++b) {
     e3::Stats st; std::vector<e3::Bad> bad;
-    e3::explore(bodies, reset, check, b, {}, st, bad, [&] { return now_s() < c.deadline; });
+    e3::explore(bodies, reset, check, b, {}, st, bad, [&] { return now_s() < c.deadline; }, part, nparts);
     if (now_s() >= c.deadline) { if (c.st.exhaustive) { c.st.exhaustive = false; c.st.first_unexplored = unit + fmt(" at preemption bound %d", b); } }
     c.st.comparisons += st.execs; acc.execs += st.execs; acc.maxpoints = std::max(acc.maxpoints, (long)st.maxpoints); for (uint64_t t : st.traces) { acc.traces.insert(t); c.st.distinct.insert(t ^ hash_str(unit)); }
     c.st.cls(fmt("%s: schedules executed while iterating to preemption bound %d", key.c_str(), b), st.execs);
@@ -130,7 +130,8 @@ template <int S> static void part_b(Ctx &c, long &id) {  // partitions of the se
 
 template <int S> static void part_c(Ctx &c, long &id) {  // concurrent evaluate() calls on one optimizer, cold and warm
   const bool th = c.args.thorough(); const int NT = th ? 3 : 2, bound = th ? 3 : 2;
-  for (int warm = 0; warm < 2; ++warm) for (unsigned mask : {0x00u, 0xffu}) for (int usermaps = 1; usermaps >= 0; --usermaps) {
+  const int NPARTS = th ? 8 : 1;   // large units are split over several processes (disjoint sets of subtrees below the root execution)
+  for (int warm = 0; warm < 2; ++warm) for (unsigned mask : {0x00u, 0xffu}) for (int usermaps = 1; usermaps >= 0; --usermaps) for (int part = 0; part < NPARTS; ++part) {
     long my = id++; std::string unit = fmt("c:%ld", my);
     bool replay = c.args.has_only && c.args.only.compare(0, unit.size() + 1, unit + "|") == 0;
     if (!replay && (!c.mine(my) || c.args.has_only)) continue;
@@ -147,7 +148,8 @@ template <int S> static void part_c(Ctx &c, long &id) {  // concurrent evaluate(
     if (replay) { if (!c.begin(c.args.only)) continue; std::vector<int> sch = sched_parse(c.args.only.substr(unit.size() + 1)); e3::Outcome o1 = e3::run_forked(bodies, reset, check, sch), o2 = e3::run_forked(bodies, reset, check, sch); ++c.st.evaluations; ++c.st.comparisons;
       if (o1.ok != o2.ok || o1.x.trace != o2.x.trace) c.st.violate(c.args.only, "replay nondeterministic"); else if (!o1.ok) c.st.violate(c.args.only, what + ": " + o1.msg); continue; }
     if (!c.begin(unit)) continue;
-    E3Acc acc; run_e3(c, unit, what, fmt("(c) concurrent evaluate, %s", warm ? "warm" : "cold"), bound, bodies, reset, check, acc);
+    if (NPARTS > 1) what += fmt(" [part %d/%d of the schedule tree]", part, NPARTS);
+    E3Acc acc; run_e3(c, unit, what, fmt("(c) concurrent evaluate, %s", warm ? "warm" : "cold"), bound, bodies, reset, check, acc, part, NPARTS);
     ++c.st.evaluations; ++c.st.nontrivial; c.st.notes[unit] = fmt("%s: %ld schedules up to %d preemptions, %zu distinct interleaving traces, up to %ld scheduling points", what.c_str(), acc.execs, bound, acc.traces.size(), acc.maxpoints);
     c.st.sample(fmt("unit %s: %s: all schedules with <= %d preemptions: %ld schedules, %zu distinct traces; points at mutex lock/unlock and in every call-out to the time/spatial map", unit.c_str(), what.c_str(), bound, acc.execs, acc.traces.size()), 12);
   }
